@@ -8,7 +8,8 @@
  *           '-' unused | j:delid:mpos:recip-hex
  *   plan  : one byte per open_write()/unlink()/stat() call in order: 00 = open_write ok / unlink ok / stat ENOENT,
  *           01 = open_write fails / unlink fails / stat succeeds, 02 = stat fails with EIO (others: as 00)
- *   chunk : most bytes one read() returns (0 = sizeof delbuf)
+ *   chunk : most bytes one read() returns (0 = sizeof delbuf); a negative number -s = every read() returns its own
+ *           number of bytes between 1 and sizeof delbuf, drawn from a generator seeded with s (a third of them 1..16)
  *   trace : ','-separated events in program order
  *           L<hex> log bytes (descriptor 0, merged)   O<path-hex> open_write   K<pos> lseek   D<hex> write to that file
  *           A<path-hex> open_append   B<hex> write to the bounce file   U<path-hex> unlink   T<path-hex> stat
@@ -75,7 +76,8 @@ static void ev_flush(void) {
 static void ev_begin(char tag) { ev_flush(); if (!first_ev) fputc(',', h_out); first_ev = 0; fputc(tag, h_out); }
 static void ev_merge(char tag, const void *p, size_t n) { if (mbuf.n && mtag != tag) ev_flush(); mtag = tag; hbuf_add(&mbuf, p, n); }
 
-static const unsigned char *in_p; static size_t in_n, in_pos; static int in_chunk;
+static const unsigned char *in_p; static size_t in_n, in_pos; static int in_chunk; static uint64_t in_rs;
+static unsigned in_rand(void) { in_rs = in_rs * 6364136223846793005ull + 1442695040888963407ull; return (unsigned)(in_rs >> 33); }
 static const unsigned char *plan_p; static size_t plan_n, plan_pos;
 static int plan_next(void) { int r = plan_pos < plan_n ? plan_p[plan_pos] : 0; plan_pos++; return r; }
 
@@ -83,6 +85,7 @@ static ssize_t h_read(int fd, void *buf, size_t len) {
   size_t k = in_n - in_pos;
   if (k > len) k = len;
   if (in_chunk > 0 && k > (size_t)in_chunk) k = in_chunk;
+  if (in_chunk < 0) { size_t c = (in_rand() % 3) ? 1 + in_rand() % 2048 : 1 + in_rand() % 16; if (k > c) k = c; }
   memcpy(buf, in_p + in_pos, k); in_pos += k;
   return k;
 }
@@ -151,7 +154,7 @@ static void one(int c, const char *jobs, const char *slots, const unsigned char 
   concurrency[c] = ns; concurrencyused[c] = nused;
   concurrency[!c] = 7; concurrencyused[!c] = 0;
   dline[c].len = 0; flagexitasap = 0; flagspawnalive[0] = flagspawnalive[1] = 1;
-  in_p = m; in_n = n; in_pos = 0; in_chunk = chunk;
+  in_p = m; in_n = n; in_pos = 0; in_chunk = chunk; in_rs = 0x9e3779b97f4a7c15ull ^ (uint64_t)(-(long)chunk);
   plan_p = plan; plan_n = pn; plan_pos = 0;
   first_ev = 1;
   while (in_pos < in_n) del_dochan(c);
@@ -201,6 +204,7 @@ int main(int argc, char **argv) {
   uint64_t id = 0;
   char jobs[512];
   unsigned char m[64], pl[16];
+  static unsigned char big[40000];
   /* (1) every stream over {0,1,2,3 (slot numbers; 0 is also NUL; slot 1 is unused), 4 (out of range), 'K','Z','D','x', 0xff} up to length <level>,
    *     against the standard world (deliveries in flight) and against an idle channel */
   static const unsigned char a[10] = { 0, 1, 2, 3, 4, 'K', 'Z', 'D', 'x', 0xff };
@@ -214,6 +218,33 @@ int main(int argc, char **argv) {
       pl[0] = (k / 2) % 3; pl[1] = (k / 6) % 3; pl[2] = (k / 18) % 3;
       one(c, jobs, W_SLOTS, pl, 3, (k % 7 == 0) ? 1 : 0, m, len);
       if (k % 3 == 0) one(c, jobs, "-;-;-", 0, 0, 0, m, len);
+    }
+  }
+  /* (3) reports around and beyond REPORTMAX for a delivery in flight, delivered in read()s of every kind: text lengths
+   *     REPORTMAX-12 .. REPORTMAX+12 one by one and then up to REPORTMAX+2100 (one sizeof delbuf beyond) in steps, each with
+   *     chunk sizes 1, 2, 3, 7, 1023, 1024, 2047, sizeof delbuf and two random chunkings; status letters K, D, Z (slot 3
+   *     belongs to a dying job: Z is rewritten to D); optional garbage / an unterminated prefix in front, so that the report
+   *     starts anywhere in a read(); always followed by a short report for another delivery */
+  {
+    static const int chunks[10] = { 1, 2, 3, 7, 1023, 1024, 2047, 0, -1, -2 };
+    int nlen = level <= 5 ? 60 : 400;
+    for (int li = 0; li < 25 + nlen; li++) for (int ci = 0; ci < 10; ci++, id++) {
+      if ((int)(id % nshards) != shard) continue;
+      int tl = li < 25 ? REPORTMAX - 14 + li : REPORTMAX + 11 + (int)(((uint64_t)(li - 24) * 2100) / nlen) - (int)((id * 7) % 5);
+      int c = (int)(id & 1);
+      static const unsigned char dl[3] = { 0, 2, 3 };
+      size_t n = 0;
+      int pre = (int)((id / 10) % 4);
+      if (pre == 1) { big[n++] = 4; big[n++] = 'K'; big[n++] = 0; }                      /* out-of-range report first */
+      if (pre == 2) { int g = 1 + (int)((id * 13) % 3000); for (int i = 0; i < g; i++) big[n++] = 0; }   /* NULs: nothing */
+      if (pre == 3) { big[n++] = 1; for (int i = 0; i < 1 + (int)((id * 31) % 2047); i++) big[n++] = 'u'; big[n++] = 0; }  /* unused slot */
+      big[n++] = dl[(id / 40) % 3]; big[n++] = "KDZ"[(id / 120) % 3];
+      for (int i = 0; i < tl; i++) big[n++] = (i % 61 == 60) ? '\n' : 'a' + (i % 26);
+      big[n++] = 0;
+      big[n++] = dl[(id / 40 + 1) % 3]; big[n++] = 'K'; big[n++] = 'o'; big[n++] = 'k'; big[n++] = 0;
+      sprintf(jobs, W_JOBS, c, c, c);
+      int ch = chunks[ci]; if (ch < 0) ch = -(int)(1 + (id * 2654435761u + seed) % 100000);
+      one(c, jobs, W_SLOTS, 0, 0, ch, big, n);
     }
   }
   /* (2) seeded random: worlds with random slots/jobs, streams of mostly well-formed reports (all letters, long texts,
@@ -250,7 +281,7 @@ int main(int argc, char **argv) {
     }
     int pn = h_below(3) ? 0 : 1 + h_below(8);
     for (int i = 0; i < pn; i++) pl[i] = h_below(3);
-    one(c, jobs, slots, pl, pn, (int[]){0, 0, 1, 5, 2047, 100}[h_below(6)], s, n);
+    one(c, jobs, slots, pl, pn, (int[]){0, 0, 1, 5, 2047, 100, 2, 1024, -1 - (int)h_below(100000)}[h_below(9)], s, n);
   }
   fflush(h_out);
   return 0;
